@@ -7,10 +7,10 @@ from pwv import core, dwtu, xf
 from pwv.core import Result, lib
 
 ID = 'C07'
-SCALARS = [0.0, 1.0, -1.0, 2.0, 0.5, -0.25, 1e6, 1e-6, -3.0]
+SCALARS = [0.0, 1.0, -1.0, 2.0, 0.5, -0.25, 1e6, 1e-6, -3.0, 1e-12, -1e-20, 1e12]
 RULE = ('Hypothesis draws a transform (DWT1D/2D forward and inverse, SWT, DTCWT forward/inverse with any axis layout / skip / '
         'scale options, functional afb2d/sfb2d and their non-separable versions) with its configuration, N,C in 1..4, two input '
-        'recipes and scalars a,b from {0,+-1,2^k,1e+-6} or generated floats. Oracles: (i) T(ax+by) = aT(x)+bT(y); (ii) T(0) is '
+        'recipes and scalars a,b from {0,+-1,2^k,1e+-6,1e+-12,1e-20} or generated floats. Oracles: (i) T(ax+by) = aT(x)+bT(y); (ii) T(0) is '
         'exactly zero; (iii) the per-slice matrix extracted from basis inputs (N=1,C=1 geometry) predicts every slice of T(x); '
         '(iv) T(x)[n,c] = T(x[n:n+1,c:c+1])[0,0]; (v) changing one slice - also to NaN or inf - leaves every other output slice bitwise unchanged; '
         '(vi) permuting batch items / channels permutes the outputs; (vii) for tiny cases the full (N*C*n)-column operator '
